@@ -4,6 +4,8 @@ from __future__ import annotations
 
 import asyncio
 
+from collections import Counter
+
 from hypothesis import strategies as st
 
 from aiomysensors.exceptions import InvalidMessageError
@@ -63,9 +65,24 @@ def strategy(tier: str):
     return gen.weighted((5, normal), (1, odd), (3, _hist_strategy()))
 
 
+def opt_cases(tier: str):
+    """Cases also executed by an interpreter started with -O (see vf/optpass.py)."""
+    return drive.opt_sweep_cases(tier)
+
+
 def enumerate_cases(tier: str):
     # one event of every kind under every environment dimension (transport kind, logging, warnings, a bystander gateway, registry file, ...)
-    yield from drive.env_sweep_cases()
+    yield from drive.all_sweep_cases()
+    # several tasks send at once (equal and different messages, every command kind) to an awake, an unknown and a sleeping destination
+    for version in ("1.4", "2.0", "2.2"):
+        for dest in ("awake", "unknown", "sleeping"):
+            if dest == "sleeping" and version.startswith("1"):
+                continue
+            for base in ([3, 1, 1, 0, 2, "1"], [3, 1, 1, 1, 2, "1"], [3, 1, 2, 0, 2, ""], [3, 255, 3, 0, 13, ""], [3, 255, 4, 0, 0, "00"]):
+                other = base[:5] + ["0" if base[5] != "0" else "1"]
+                for msgs in ([base, base], [base, base, base], [base, other], [base, other, base]):
+                    for buffer in (None, False):
+                        yield {"kind": "concurrent", "version": version, "dest": dest, "msgs": msgs, "buffer": buffer}
     for version in ("2.0", "2.2"):
         for parked in (1, 2):
             for senders in ([[0, True]], [[0, True], [0, True]], [[1, True], [3, True]], [[0, False], [0, True]]):
@@ -150,6 +167,66 @@ def _run_nonmsg(case: dict) -> Outcome:
         return fail("nonmessage-accepted", f"send({case['obj']}) returned normally (writes: {attempts!r})", classes=classes)
     if not isinstance(value, InvalidMessageError):
         return fail("nonmessage-wrong-error", f"send({case['obj']}) raised {value!r}, want InvalidMessageError", classes=classes)
+    return Outcome(ok=True, nontrivial=True, classes=classes)
+
+
+def _run_concurrent(case: dict) -> Outcome:
+    """Several tasks call send at the same time (equal or different messages) while the transport's writes are slow: every call
+    that returns normally has its line handed to the transport (once per call) or held for the sleeping destination."""
+    import asyncio
+
+    from vf.props import c09
+
+    version, dest, msgs = case["version"], case["dest"], case["msgs"]
+    classes = ("concurrent", f"dest={dest}", f"senders={len(msgs)}", "equal-messages" if len({tuple(m) for m in msgs}) < len(msgs) else "distinct-messages")
+
+    async def go() -> Outcome | None:
+        transport = c09.GatedTransport()
+        gateway, _ = env.make_gateway(version, transport=transport)
+        if dest != "unknown":
+            env.install_registry(gateway.nodes, {str(msgs[0][0]): {"sleeping": dest == "sleeping", "children": {"1": {"child_type": 3}}}})
+        transport.gating = True
+        tasks = [asyncio.ensure_future(env.send(gateway, env.mk_message(m), case.get("buffer"))) for m in msgs]
+        for _ in range(200):
+            await c09._settle(transport, tasks)
+            open_writes = [fut for _line, fut in transport.blocked if not fut.done()]
+            if not open_writes:
+                break
+            open_writes[0].set_result(None)
+        if any(not t.done() for t in tasks):
+            for t in tasks:
+                t.cancel()
+            return fail("concurrent:send-never-returns", f"{len(msgs)} concurrent sends of {msgs!r} to a {dest} destination: some never return although every write was let through")
+        results = [t.result() for t in tasks]
+        for (status, value), m in zip(results, msgs):
+            if status == "leak":
+                return fail(f"send-leak:cmd={m[2]}:{type(value).__name__}", f"concurrent send of {m!r} raised {value!r}")
+        wrote = Counter(line for _tick, line in transport.calls)
+        returned = Counter(ref_format(*m) for (status, _v), m in zip(results, msgs) if status == "ok")
+        transport.gating = False
+        if dest == "sleeping":
+            # whatever was held is owed at the wake
+            before = len(transport.calls)
+            wake_t = 32 if version.startswith("2.2") else 22
+            await env.rx(gateway, f"{msgs[0][0]};255;3;0;{wake_t};1\n")
+            wrote.update(line for _tick, line in transport.calls[before:])
+            latest: dict = {}
+            for (status, _v), m in zip(results, msgs):
+                if status == "ok" and m[2] == 1:
+                    latest[(m[0], m[1], m[4])] = ref_format(*m)
+            for line in set(returned):
+                if wrote[line] == 0 and (line.split(";")[2] != "1" or line in latest.values() or len(set(latest.values())) == 0):
+                    return fail("concurrent:accepted-and-never-written", f"sends of {msgs!r} to a sleeping node returned normally; {line!r} was neither written nor handed over at the wake (written: {dict(wrote)!r})")
+            return None
+        for line, count in returned.items():
+            if wrote[line] != count:
+                return fail("concurrent:accepted-and-not-written", f"{count} concurrent send calls of {line!r} to a {dest} destination returned normally; the transport was handed the line {wrote[line]} times")
+        return None
+
+    bad = env.run(go())
+    if bad is not None:
+        bad.classes = classes
+        return bad
     return Outcome(ok=True, nontrivial=True, classes=classes)
 
 
@@ -369,6 +446,8 @@ def run_case(case: dict) -> Outcome:
         return _run_nonmsg(case)
     if case["kind"] == "race":
         return _run_race(case)
+    if case["kind"] == "concurrent":
+        return _run_concurrent(case)
     if case["kind"] == "hist":
         return _run_hist(case)
     version, dest, msg, buffer = case["version"], case["dest"], case["msg"], case["buffer"]
